@@ -78,17 +78,17 @@ Lemma tx_finish_nocrash p s evs out imm : tr_crash (tx_finish p s evs out imm) =
 Proof. unfold tx_finish. destruct out; reflexivity. Qed.
 
 Lemma tx_cf_nocrash c allowed s evs :
-  params_ok (c_p c) -> WF s -> tx_state s = TxTransmitCF -> tr_crash (tx_cf c allowed s evs) = false.
+  params_ok (c_p c) -> WF c s -> tx_state s = TxTransmitCF -> tr_crash (tx_cf c allowed s evs) = false.
 Proof.
   intros Hok H Et. pose proof (prefix_len c) as Hp. pose proof (tx_dl_bounds _ Hok) as Hdl.
   unfold tx_cf.
-  destruct (wf_cf s H Et) as [Hrb _].
+  destruct (wf_cf c s H Et) as [Hrb _].
   destruct (remote_bs s) as [rbs|]; [|congruence].
   destruct (active s) as [r|] eqn:Ea.
-  2:{ exfalso. assert (tx_state s = TxIdle) by (apply (wf_active s H); exact Ea). congruence. }
+  2:{ exfalso. assert (tx_state s = TxIdle) by (apply (wf_active c s H); exact Ea). congruence. }
   destruct (timer_timed_out _ _); [|apply tx_finish_nocrash].
   destruct (_ <=? allowed); [|apply tx_finish_nocrash].
-  pose proof (wf_req s H r Ea) as Hr.
+  pose proof (wf_req c s H r Ea) as Hr.
   destruct (consume _ false r) as [res r'] eqn:Ec.
   assert (Hres : res <> None).
   { unfold consume in Ec. pose proof (gen_take_length (Z.min (p_tx_dl (c_p c) - 1 - zlen (c_tx_prefix c)) (r_remaining r)) (r_gen r)) as Hl.
@@ -114,19 +114,19 @@ Proof.
 Qed.
 
 Theorem process_tx_nocrash c s :
-  params_ok (c_p c) -> WF s -> tr_crash (process_tx c s) = false.
+  params_ok (c_p c) -> WF c s -> tr_crash (process_tx c s) = false.
 Proof.
   intros Hok H0. unfold process_tx.
-  assert (Hmain : forall s2 a, WF s2 -> tr_crash (process_tx_main c a s2) = false).
+  assert (Hmain : forall s2 a, WF c s2 -> tr_crash (process_tx_main c a s2) = false).
   { intros s2 a H2. unfold process_tx_main.
     pose proof (WF_tx_after_fc c s2 H2) as Hf.
     destruct (tx_after_fc c s2) as [r|[s3 evs]] eqn:Ea.
     - (* early returns of tx_after_fc are never crashes *)
       unfold tx_after_fc in Ea.
       destruct (match last_fc s2 with None => _ | Some f => _ end) as [r0 [s' evs1]].
-      destruct r0; [|injection Ea as <-; reflexivity].
+      destruct r0; [injection Ea as <-; reflexivity|].
       destruct (if timer_timed_out (now s') (timer_rx_fc s') then _ else _) as [sx evs2] eqn:Eto.
-      assert (Hsx : WF sx).
+      assert (Hsx : WF c sx).
       { (* re-derive: same reasoning as WF_tx_after_fc, through its statement on this branch *)
         destruct (tx_state sx); destruct (active sx); try discriminate;
         try (destruct (r_is_depleted _ && _); [destruct (stop_sending _ _)|]; discriminate).
@@ -134,11 +134,11 @@ Proof.
       destruct (tx_state sx) eqn:Et; [discriminate| | | |];
       (destruct (active sx) eqn:Eac;
        [destruct (r_is_depleted _ && _); [destruct (stop_sending _ _)|]; discriminate
-       |exfalso; assert (tx_state sx = TxIdle) by (apply (wf_active sx Hsx); exact Eac); congruence]).
+       |exfalso; assert (tx_state sx = TxIdle) by (apply (wf_active c sx Hsx); exact Eac); congruence]).
     - destruct Hf as [H3 Hact]. unfold tx_fsm.
       destruct (tx_state s3) eqn:Et.
       + destruct (idle_dequeue c (tx_queue s3) s3 [] a) as [site|? ? ?] eqn:Ei; [|apply tx_finish_nocrash].
-        exfalso. exact (idle_dequeue_nocrash c (tx_queue s3) s3 [] a Hok (wf_queue s3 H3) site Ei).
+        exfalso. exact (idle_dequeue_nocrash c (tx_queue s3) s3 [] a Hok (wf_queue c s3 H3) site Ei).
       + apply tx_finish_nocrash.
       + apply tx_cf_nocrash; assumption.
       + destruct (tx_standby s3); [|apply tx_finish_nocrash].
@@ -147,7 +147,7 @@ Proof.
       + destruct (tx_standby s3); [|apply tx_finish_nocrash].
         destruct (_ <=? a); apply tx_finish_nocrash. }
   destruct (pending_fc s) eqn:Ep.
-  - pose proof (wf_pending s H0 Ep) as Hq.
+  - pose proof (wf_pending c s H0 Ep) as Hq.
     set (s2 := if opt_eqb _ _ then _ else _).
     assert (Hst : pending_fc_status s2 = pending_fc_status s).
     { subst s2. destruct (opt_eqb _ _); reflexivity. }
@@ -160,8 +160,8 @@ Proof.
 Qed.
 
 Lemma tx_loop_nocrash c fuel : params_ok (c_p c) -> forall s evs st,
-  WF s ->
-  WF (fst (fst (fst (tx_loop fuel c s evs st)))) /\ snd (tx_loop fuel c s evs st) <> LCrash.
+  WF c s ->
+  WF c (fst (fst (fst (tx_loop fuel c s evs st)))) /\ snd (tx_loop fuel c s evs st) <> LCrash.
 Proof.
   intros Hok. induction fuel as [|fuel IH]; intros s evs st H; simpl.
   - split; [exact H|discriminate].
@@ -175,7 +175,7 @@ Proof.
 Qed.
 
 Lemma rx_loop_WF c inbox s evs st :
-  WF s -> WF (snd (fst (fst (rx_loop c inbox s evs st)))).
+  WF c s -> WF c (snd (fst (fst (rx_loop c inbox s evs st)))).
 Proof.
   intros H. destruct (rx_loop_micro c inbox s evs st) as (ms & en & _ & Hr & _).
   pose proof (WF_mrun c ms s H) as Hw. rewrite Hr in Hw. exact Hw.
@@ -184,21 +184,21 @@ Qed.
 (** process() never raises (never ends in the modelled crash outcome), for every inbox
     content, every flag combination, every fuel. *)
 Theorem process_nocrash c fuel do_rx do_tx : params_ok (c_p c) -> forall w evs st,
-  WF (w_l w) ->
-  WF (w_l (fst (fst (fst (process_loop fuel c do_rx do_tx w evs st))))) /\
+  WF c (w_l w) ->
+  WF c (w_l (fst (fst (fst (process_loop fuel c do_rx do_tx w evs st))))) /\
   snd (process_loop fuel c do_rx do_tx w evs st) <> LCrash.
 Proof.
   intros Hok. induction fuel as [|fuel IH]; intros w evs st H; simpl.
   - split; [exact H|discriminate].
   - set (swt := do_tx && negb (is_nil (tx_queue (w_l w))) && rxst_eqb (rx_state (w_l w)) RxIdle &&
                 txst_eqb (tx_state (w_l w)) TxIdle).
-    assert (H1 : WF (snd (fst (fst (if do_rx && negb swt then rx_loop c (w_inbox w) (w_l w) evs st
+    assert (H1 : WF c (snd (fst (fst (if do_rx && negb swt then rx_loop c (w_inbox w) (w_l w) evs st
                                     else (w_inbox w, w_l w, evs, st)))))).
     { destruct (do_rx && negb swt); [apply rx_loop_WF, H|exact H]. }
     destruct (if do_rx && negb swt then rx_loop c (w_inbox w) (w_l w) evs st
               else (w_inbox w, w_l w, evs, st)) as [[[inbox1 s1] evs1] st1]. simpl in H1.
-    pose proof (WF_lim_update (c_p c) s1 H1) as H2.
-    assert (H3 : WF (fst (fst (fst (if do_tx then tx_loop fuel c (lim_update (c_p c) s1) evs1 st1
+    pose proof (WF_lim_update c (c_p c) s1 H1) as H2.
+    assert (H3 : WF c (fst (fst (fst (if do_tx then tx_loop fuel c (lim_update (c_p c) s1) evs1 st1
                                     else (lim_update (c_p c) s1, evs1, st1, LEnd))))) /\
                  snd (if do_tx then tx_loop fuel c (lim_update (c_p c) s1) evs1 st1
                       else (lim_update (c_p c) s1, evs1, st1, LEnd)) <> LCrash).
